@@ -36,6 +36,10 @@ DEFAULTS = {
     'sample_rate': 100.0,
     'profile': None,           # per-template amplitude level permutations (list of lists) or None
     'spike_samples': None,     # explicit list or None
+    'n_loc': None,             # width of the feature tables (default min(n_channels, 3))
+    'n_tloc': None,            # width of the template-feature tables (default min(n_templates, 2))
+    'ind_dtype': 'uint32',     # dtype of pc_feature_ind / template_feature_ind
+    'amp_base': 1.0,           # amplitudes are amp_base + 0.25 * k (distinct per spike)
     'sparse_cols': None,       # explicit (n_templates, n_loc) column table (may contain -1)
     'sparse_zero': None,       # per template: index of an all-zero stored column, or None
     'tsv': {},                 # extra per-cluster TSV files {name: {'field': f, 'values': {id: v}}}
@@ -53,6 +57,9 @@ def geometry(name, nc):
     """Channel positions (nc, 2) and shanks."""
     if name == 'line':
         pos = np.array([[0., 10. * i] for i in range(nc)])
+        shanks = np.zeros(nc, dtype=np.int32)
+    elif name == 'linex10':
+        pos = np.array([[10., 20. * i] for i in range(nc)])
         shanks = np.zeros(nc, dtype=np.int32)
     elif name == 'linex0':
         pos = np.array([[0., 20. * i] for i in range(nc)])
@@ -153,7 +160,8 @@ def make_dataset(d, spec=None):
     else:
         sc = st.copy()
     truth['spike_clusters'] = sc
-    amps = (1.0 + 0.25 * ((np.arange(ns) * 3 + fill) % ns)).astype(np.float64)
+    mult = next(m_ for m_ in (3, 5, 7, 11, 13, 1) if np.gcd(m_, max(ns, 1)) == 1)
+    amps = (float(s['amp_base']) + 0.25 * ((np.arange(ns) * mult + fill) % ns)).astype(np.float64)
     if s['content'] == 'nan_amp':
         amps[1] = np.nan
     truth['amplitudes'] = amps if s['amplitudes'] else None
@@ -280,7 +288,7 @@ def make_dataset(d, spec=None):
     # --- features
     truth['pc_features'] = truth['pc_feature_ind'] = truth['pc_feature_rows'] = None
     if s['features'] != 'absent':
-        nloc = min(nc, 3)
+        nloc = s['n_loc'] or min(nc, 3)
         rows = None
         n_f = ns
         if s['features'] == 'sparse_rows':
@@ -297,7 +305,7 @@ def make_dataset(d, spec=None):
         truth['pc_features'] = pcf
         save('pc_features.npy', pcf)
         if s['features'] in ('sparse', 'sparse_rows'):
-            ind = np.zeros((nt, nloc), dtype=np.uint32)
+            ind = np.zeros((nt, nloc), dtype=s['ind_dtype'])
             for t in range(nt):
                 ind[t] = np.roll(np.arange(nc), -t)[:nloc]
             truth['pc_feature_ind'] = ind
@@ -307,7 +315,7 @@ def make_dataset(d, spec=None):
             save('pc_feature_spike_ids.npy', rows)
     truth['template_features'] = truth['template_feature_ind'] = truth['template_feature_rows'] = None
     if s['tfeatures'] != 'absent':
-        ntl = min(nt, 2)
+        ntl = s['n_tloc'] or min(nt, 2)
         rows = None
         n_f = ns
         if s['tfeatures'] == 'sparse_rows':
@@ -320,7 +328,7 @@ def make_dataset(d, spec=None):
         truth['template_features'] = tf
         save('template_features.npy', tf)
         if s['tfeatures'] in ('sparse', 'sparse_rows'):
-            ind = np.zeros((nt, ntl), dtype=np.uint32)
+            ind = np.zeros((nt, ntl), dtype=s['ind_dtype'])
             for t in range(nt):
                 ind[t] = np.roll(np.arange(nt), -t)[:ntl]
             truth['template_feature_ind'] = ind
